@@ -172,7 +172,8 @@ def extra_add(rng, variants=VARIANTS, arches=None, invalid=0.25):
     op = {"op": "add", "variant": v, "arch": a,
           "path": pick(rng, ["%s/%s/os/GPL" % (v, a), "%s/%s/os2/EULA" % (v, a), "%s/%s/osx" % (v, a), "README", "%s/%s/os/a/b/c" % (v, a),
                              "compose/%s/%s/os/GPL" % (v, a), "%s/%s/os/%s/%s/os/LICENSE" % (v, a, v, a)]),
-          "size": rng.choice([0, 1, 18092, 2 ** 33, 2 ** 64 + 1, {"__float__": "inf"}, {"__float__": "-inf"}, 1.5]),
+          # (a size that is not an integer is outside the documented domain: rare, so that most documents stay inside it)
+          "size": rng.choice([{"__float__": "inf"}, {"__float__": "-inf"}, 1.5]) if rng.random() < 0.04 else rng.choice([0, 1, 18092, 2 ** 33, 2 ** 64 + 1]),
           "checksums": dict((t, hexstr(rng, 8)) for t in subset(rng, pools.CHECKSUM_TYPES + ["SHA256", "Md5", "sha3_256", "x-y"], 0, 3))}
     if rng.random() < invalid:
         k = pick(rng, ["arch", "abs", "empty", "checksums", "variant"])
@@ -233,6 +234,9 @@ def history(rng, machine, n, invalid=0.25, restarts=0.0, slot=0):
                 ops.append({"op": "restart", "path": path, "via": pick(rng, ["path", "handle", "loads"]), "offset": rng.randint(0, 500)})
         if rng.random() < 0.06:
             ops.append({"op": "mf_del_variant", "variant": pick(rng, variants)})
+        elif rng.random() < 0.08:
+            ops.append({"op": "mf_lookup", "variant": pick(rng, variants + ["Missing"]), "arch": pick(rng, arches + ["ia64"]),
+                        "how": subset(rng, ["item", "table", "tree"], 1, 3)})
     if slot:
         for o in ops:
             o["slot"] = slot
